@@ -280,14 +280,16 @@ theorem C31_heap_value_agree (h : Heap) (a b : RConfig)
 /-- the all-zero reference-level configuration (nil maps and slices) -/
 def rzero : RConfig := table.map fun fs =>
   (fs.name, match fs.kind with
-    | .tags | .list => .ref none
+    | .tags => .ref none
+    | .list => .slice none
     | k => .scalar (zeroVal k))
 
 /-- non-vacuity: well-formed inputs exist over any heap -/
 example (h : Heap) : ∀ fs ∈ table, RefOK h fs.kind (rget rzero fs.name) ∧ RefOK h fs.kind (rget rzero fs.name) := by
   intro fs hfs
   have : rget rzero fs.name = match fs.kind with
-      | .tags | .list => .ref none
+      | .tags => .ref none
+      | .list => .slice none
       | k => .scalar (zeroVal k) := by
     unfold rget rzero
     rw [alookup_map_rspec _ table C31_table_names_nodup fs hfs]; rfl
@@ -319,16 +321,26 @@ theorem C31_pure_inplace_counterexample :
         [("Tags", .ref (some 0))] [("Tags", .ref (some 1))]).1[0]? = some (.tags [("a", "1"), ("b", "2")]) := by
   decide
 
-/-- Witness for `result.X = append(a.X, b.X...)` (`appendInPlace`, seeded mutation C31-b): the
-same base merged twice — the second call rewrites the base's list object, and the first result,
-which shares it, now ends in the second call's entries. -/
+/-- Witness for `result.X = append(a.X, b.X...)` (`appendInPlace`, seeded mutation C31-b), with
+Go's exact `append`: the base's list has length 1 and capacity 3.  `merge(base,b)` writes `b`'s
+entry into the base's backing array (input storage written) and shares it; `merge(base,c)` then
+overwrites that cell, so the FIRST result now ends in `c`'s entry.  With capacity = length the
+same calls are harmless (append reallocates) — which is why linear chains and literal slices
+never show the defect. -/
 theorem C31_append_inplace_counterexample :
     let t : List FieldSpec := [⟨"StartJoin", .list, .appendInPlace⟩]
-    let h : Heap := [.strs ["s"], .strs ["b"], .strs ["c"]]
-    let m1 := mergeH t h [("StartJoin", .ref (some 0))] [("StartJoin", .ref (some 1))]
-    let m2 := mergeH t m1.1 [("StartJoin", .ref (some 0))] [("StartJoin", .ref (some 2))]
+    let base : RConfig := [("StartJoin", .slice (some (0, 1)))]
+    let h : Heap := [.strs ["s", "", ""], .strs ["b"], .strs ["c"]]
+    let m1 := mergeH t h base [("StartJoin", .slice (some (1, 1)))]
+    let m2 := mergeH t m1.1 base [("StartJoin", .slice (some (2, 1)))]
     deref t m1.1 m1.2 = [("StartJoin", .list ["s", "b"])] ∧
-    deref t m2.1 m1.2 ≠ deref t m1.1 m1.2 ∧ m1.1[0]? ≠ h[0]? := by
+    deref t m2.1 m1.2 = [("StartJoin", .list ["s", "c"])] ∧
+    m1.1[0]? = some (.strs ["s", "b", ""]) ∧
+    -- no spare capacity: both results stay intact
+    (let h' : Heap := [.strs ["s"], .strs ["b"], .strs ["c"]]
+     let n1 := mergeH t h' base [("StartJoin", .slice (some (1, 1)))]
+     let n2 := mergeH t n1.1 base [("StartJoin", .slice (some (2, 1)))]
+     deref t n2.1 n1.2 = [("StartJoin", .list ["s", "b"])] ∧ n2.1[0]? = h'[0]?) := by
   decide
 
 end SerfProofs.C31
